@@ -20,10 +20,12 @@ Definition c05_mix (S : SOps) (sq : nat -> lmx S -> lmx S) (n : nat)
   @mkMix (c05_O S sq) n (fst g) (snd g).
 
 (* SUKFCorrection::correct followed by getLikelihood().  reduced = the constructor
-   flag; R is what the measurement model returns (s x s if reduced, m x m otherwise).
+   flag; R is what the measurement model returns (s x s if reduced, m x m otherwise);
+   nl = number of leading linear rows of the state (the other n - nl rows are angles),
+   ml = the same for the measurement description.
    Result: the output mixture (components, weights) and, if the step went through,
    per component (innovation, Y, likelihood). *)
-Definition c05_sukf (S : SOps) (sq : nat -> lmx S -> lmx S) (n m s : nat)
+Definition c05_sukf (S : SOps) (sq : nat -> lmx S -> lmx S) (n nl m ml s : nat)
            (kind : nat) (H G G2 b g y : lmx S) (reduced : bool) (R : lmx S)
            (alpha beta kappa : T S)
            (pred corr_prev : list (lmx S * lmx S) * list (T S))
@@ -32,7 +34,7 @@ Definition c05_sukf (S : SOps) (sq : nat -> lmx S -> lmx S) (n m s : nat)
   let w := @ut_weights O n alpha beta kappa in
   let h := @h_family O n m kind H G G2 b g in
   let nz : noise O s m := if reduced then @NoiseReduced O s m R else @NoiseFull O s m R in
-  let r := @sukf_correct O n m s w h y nz (c05_mix S sq n pred) (c05_mix S sq n corr_prev) in
+  let r := @sukf_correct O n m s nl ml w h y nz (c05_mix S sq n pred) (c05_mix S sq n corr_prev) in
   let lik := @sukf_likelihood O n m s nz (snd r) in
   ((mix_comps (fst r), mix_weights (fst r)),
    match snd r, lik with
@@ -44,7 +46,7 @@ Definition c05_sukf (S : SOps) (sq : nat -> lmx S -> lmx S) (n m s : nat)
 
 (* spec: the standard additive unscented correction with the full noise covariance;
    per component (mean, covariance, innovation, Pyy, likelihood) *)
-Definition c05_ukf (S : SOps) (sq : nat -> lmx S -> lmx S) (n m : nat)
+Definition c05_ukf (S : SOps) (sq : nat -> lmx S -> lmx S) (n nl m ml : nat)
            (kind : nat) (H G G2 b g y : lmx S) (Rfull : lmx S)
            (alpha beta kappa : T S) (pred : list (lmx S * lmx S))
   : list (lmx S * lmx S * lmx S * lmx S * T S) :=
@@ -52,7 +54,7 @@ Definition c05_ukf (S : SOps) (sq : nat -> lmx S -> lmx S) (n m : nat)
   let w := @ut_weights O n alpha beta kappa in
   let h := @h_family O n m kind H G G2 b g in
   map (fun c : lmx S * lmx S =>
-         let o := @ukf_correct_comp O n m w h y Rfull (fst c) (snd c) in
+         let o := @ukf_correct_comp_lay O n m nl ml w h y Rfull (fst c) (snd c) in
          (uo_mean o, uo_cov o, uo_innov o, uo_Pyy o, @ukf_likelihood_comp O n m o))
       pred.
 
